@@ -446,10 +446,45 @@ def r9_client_tries_response_first(ctx):
         R.check(first_is_response, "C15.R9", "client-%s:response-first" % label, "the %s classification tries Response first" % label, "the client's %s classification tries %s before Response: a valid response that carries an extra `method` member is taken for a notification and its call never completes (the HTTP client, which parses Response directly, still accepts it)" % (label, [short(t) for t in tys[:3]]), where(lst[0]) if lst else None)
 
 
+def r10_http_errors_keep_the_envelope(ctx):
+    """the errors the HTTP transport answers on its own (internal_error, too_large, malformed) are JSON-RPC response
+    objects: their body is serde_json::to_string of a Response::new(error payload, Id::Null), not the bare error object
+    (`{"code":..,"message":..}` has no jsonrpc / id / error member and the library's own Response parser rejects it)"""
+    F, R = ctx.F, ctx.R
+    tr = ctx.tracer(follow_callers=False, follow_fields=False, inline_calls=False)
+    for nm in ("internal_error", "too_large", "malformed"):
+        b = F.one(r"^jsonrpsee_server::transport::http::response::%s$" % nm)
+        R.fn(b)
+        ft = b.calls_to(r"transport::http::response::from_template$")
+        ok = False
+        for c in ft:
+            for l in tr.origins(b, c.args[1]):
+                if l.kind == "call" and re.search(r"^serde_json::(ser::)?to_string$", l.detail["callee"] or ""):
+                    for l2 in tr.origins(b, l.detail["args"][0]):
+                        if l2.kind == "call" and re.search(r"Response::<.*>::new$", l2.detail["callee"] or ""):
+                            ok = True
+        R.check(ok, "C15.R10", "http-error:%s:envelope" % nm, "response::%s() answers a serialised Response object" % nm, "response::%s() no longer answers serde_json::to_string(&Response::new(error, Id::Null)): the body is not a JSON-RPC response object (no jsonrpc/id/error members)" % nm, "%s:%d" % (b.file, b.lo))
+
+
+def r11_subscription_id_numbers_are_u64(ctx):
+    """a numeric subscription id is any u64 on every path that decodes one: the derived decoder (u64) is what the client
+    uses for the subscribe result and for notifications, and the Value conversion reads the number with as_u64 - a signed
+    or floating accessor rejects or mangles ids >= 2^63 that the derived decoder accepts"""
+    F, R = ctx.F, ctx.R
+    b = F.one(r"^<jsonrpsee_types::params::SubscriptionId<'a> as std::convert::TryFrom<serde_json::Value>>::try_from$")
+    R.fn(b)
+    acc = sorted({(c.name() or "").split("::")[-1] for x in F.nested(b) for c in x.calls_to(r"serde_json::(value::|number::)?Number::as_\w+$")})
+    R.check(acc == ["as_u64"], "C15.R11", "sub-id:value-conversion-unsigned", "TryFrom<Value> for SubscriptionId reads numbers with as_u64", "TryFrom<serde_json::Value> for SubscriptionId reads numbers with %s: ids above i64::MAX (valid u64 ids the derived decoder accepts) are rejected or changed" % acc, "%s:%d" % (b.file, b.lo))
+    psr = F.one(r"^jsonrpsee_core::client::async_client::helpers::process_single_response$")
+    R.fn(psr)
+    dec = [c for c in psr.calls_to(r"^serde_json::(de::)?from_str$") if c.ga and "SubscriptionId" in c.ga[-1]]
+    R.check(len(dec) == 1, "C15.R11", "sub-id:subscribe-result-uses-derived-decoder", "the subscribe result is decoded as SubscriptionId by the derived decoder (the one notifications use)", "process_single_response no longer decodes the subscribe result with serde_json::from_str::<SubscriptionId>: the id in the subscribe reply and the id in notifications go through different decoders", "%s:%d" % (psr.file, psr.lo))
+
+
 CONTROLS = [control_handmade, control_borrowed_str]
 
 
-RULES = [r1_code_tables, r2_serializer, r3_field_tables, r4_duplicate_guards, r5_acceptance_table, r6_no_handmade_json, r7_no_borrowed_str, r8_into_owned_is_fieldwise, r9_client_tries_response_first]
+RULES = [r1_code_tables, r2_serializer, r3_field_tables, r4_duplicate_guards, r5_acceptance_table, r6_no_handmade_json, r7_no_borrowed_str, r8_into_owned_is_fieldwise, r9_client_tries_response_first, r10_http_errors_keep_the_envelope, r11_subscription_id_numbers_are_u64]
 
 LEVEL_TEXT = (
     "Decision tables and structural facts extracted exactly from the type-checked serde code: the error-code tables are "
